@@ -187,13 +187,13 @@ theorem step_fixed_no_panic (s : St) (a : Step) : (step true s a).isPanic = fals
       · rfl
       · split <;> rfl
     · rfl
-  | touchPop c o p => simp only [step]; split <;> rfl
+  | touchPop c o => simp only [step]; split <;> rfl
   | touchRemove o =>
     simp only [step]
     split
     · exact okH_fixed_ne_panic _ _ _ (removeFromPQ_fixed_some _ _)
     · rfl
-  | touchMapPush o =>
+  | touchMapPush o p =>
     simp only [step]
     split
     · split <;> rfl
@@ -231,12 +231,12 @@ theorem step_fixed_no_panic (s : St) (a : Step) : (step true s a).isPanic = fals
   | emptyResetInflight => simp only [step]; split <;> rfl
   | emptyResetDeferred => simp only [step]; split <;> rfl
   | emptyRest => simp only [step]; split <;> rfl
-  | deferMapPush o p =>
+  | deferMapPush o =>
     simp only [step]
     split
     · split <;> rfl
     · rfl
-  | deferPQPush o =>
+  | deferPQPush o p =>
     simp only [step]
     split <;> rfl
   | dscanPeek t =>
@@ -250,6 +250,7 @@ theorem step_fixed_no_panic (s : St) (a : Step) : (step true s a).isPanic = fals
     · split <;> rfl
     · rfl
   | reload o => simp only [step]; split <;> rfl
+  | put o => simp only [step]; split <;> rfl
 
 theorem run_fixed_no_panic : ∀ (sched : List Step) (s : St), (run true s sched).isPanic = false := by
   intro sched
